@@ -28,7 +28,7 @@ var bitlistFuncs = []string{"utils.NewBitList", "utils.(*BitList).Len", "utils.(
 var gfFuncs = []string{"utils.(*GaloisField).AddOrSub", "utils.(*GaloisField).Multiply", "utils.(*GaloisField).Divide", "utils.(*GaloisField).Invers",
 	"utils.lemmaMulComm", "utils.lemmaMulAssoc", "utils.lemmaInverse", "utils.lemmaDivUndoesMul", "utils.lemmaDivIsMulInverse", "utils.NewGFPoly"}
 
-var getters2D = []string{"qr.(*qrcode).Content", "qr.(*qrcode).Metadata", "qr.(*qrcode).ColorModel", "qr.(*qrcode).ColorScheme", "qr.(*qrcode).Bounds", "qr.(*qrcode).At", "datamatrix.(*datamatrixCode).Content", "datamatrix.(*datamatrixCode).Metadata", "datamatrix.(*datamatrixCode).ColorModel", "datamatrix.(*datamatrixCode).ColorScheme", "datamatrix.(*datamatrixCode).Bounds", "datamatrix.(*datamatrixCode).At", "aztec.(*aztecCode).Metadata", "aztec.(*aztecCode).ColorModel", "aztec.(*aztecCode).ColorScheme", "aztec.(*aztecCode).Bounds", "aztec.(*aztecCode).At", "pdf417.(*pdfBarcode).Content", "pdf417.(*pdfBarcode).Metadata", "pdf417.(*pdfBarcode).ColorModel", "pdf417.(*pdfBarcode).ColorScheme", "pdf417.(*pdfBarcode).Bounds", "pdf417.(*pdfBarcode).At"}
+var getters2D = []string{"qr.(*qrcode).Content", "qr.(*qrcode).Metadata", "qr.(*qrcode).ColorModel", "qr.(*qrcode).ColorScheme", "qr.(*qrcode).Bounds", "qr.(*qrcode).At", "datamatrix.(*datamatrixCode).Content", "datamatrix.(*datamatrixCode).Metadata", "datamatrix.(*datamatrixCode).ColorModel", "datamatrix.(*datamatrixCode).ColorScheme", "datamatrix.(*datamatrixCode).Bounds", "datamatrix.(*datamatrixCode).At", "aztec.(*aztecCode).Content", "aztec.(*aztecCode).Metadata", "aztec.(*aztecCode).ColorModel", "aztec.(*aztecCode).ColorScheme", "aztec.(*aztecCode).Bounds", "aztec.(*aztecCode).At", "pdf417.(*pdfBarcode).Content", "pdf417.(*pdfBarcode).Metadata", "pdf417.(*pdfBarcode).ColorModel", "pdf417.(*pdfBarcode).ColorScheme", "pdf417.(*pdfBarcode).Bounds", "pdf417.(*pdfBarcode).At"}
 
 var props = []*PropDef{
 	{
@@ -65,7 +65,7 @@ var props = []*PropDef{
 			{Pkg: "aztec", File: "c03_aztec_test.go", Run: "^TestVerifC03$", Bound: boundedNote + "full round trip through the independent ISO 24778 reader aztecspec.Decode (high-level encoder, stuffing, layer selection, check words, mode message): all 36 explicit sizes and automatic sizing, 13 alphabets, binary-shift boundaries 31/32/62/63/2078/2079, capacity +-2 per format, seeded random contents; empty payload excluded (known finding)"},
 		},
 		Assumptions: []string{asmBitlist, asmStages, asmRS, "NewGaloisField is used through a trusted shape contract (size and base as requested); the table contents are lemma gf/fields"},
-		Note:        "[C] for all 36 explicit sizes: the drawing part of EncodeWithColor (data spiral through alignmentMap, mode message ring, bullseye, orientation marks, reference grid) equals the independent ISO layout module by module for symbolic message/mode bits; word size and total bits per size are the ISO values; explicit layer request honoured. [T] latch/shift/character tables decode (under the spec decoder) to what they claim; word_size and totalBitsInLayer against ISO. [P] generateModeMessage: layers-1 and data words-1 in binary at the head of a 28/40-bit message; generateCheckWords: the message is the data words followed by the Reed-Solomon words, totalBits in all, data bits unchanged (word sizes 4, 6, 8; for 10 and 12 only the length is claimed); bitsToWords: word values as binary numbers, most significant bit first; stuffBits: length bounds.",
+		Note:        "[C] for all 36 explicit sizes: the drawing part of EncodeWithColor (data spiral through alignmentMap, mode message ring, bullseye, orientation marks, reference grid) equals the independent ISO layout module by module for symbolic message/mode bits; word size and total bits per size are the ISO values; explicit layer request honoured. [T] latch/shift/character tables decode (under the spec decoder) to what they claim; word_size and totalBitsInLayer against ISO. [P] generateModeMessage: layers-1 and data words-1 in binary at the head of a 28/40-bit message; generateCheckWords: the message is the data words followed by the Reed-Solomon words, totalBits in all, data bits unchanged (word sizes 4, 6, 8; for 10 and 12 only the length is claimed); bitsToWords: word values as binary numbers, most significant bit first (word sizes up to 8; value range for all); stuffBits: length bounds.",
 	},
 	{
 		ID:     "C04",
@@ -174,7 +174,7 @@ var props = []*PropDef{
 		Harness: []Harness{
 			{Pkg: "codabar", File: "c11_render_test.go", Run: "^TestVerifC11$", Bound: boundedNote + "every Encode/EncodeWithColor entry point x 5 colour schemes: bounds, pixel colours by value, ColorModel/ColorScheme, pattern independent of the scheme, Metadata, Content"},
 		},
-		Assumptions: []string{asmBitlist, "the 2-D getters are verified against the fields (size, colour scheme, bit model, content) that the unwinding families establish on the result objects; aztec Content() (a []byte to string conversion of the stored copy) is covered by the content-snapshot obligation and the bounded stand-in"},
+		Assumptions: []string{asmBitlist, "the 2-D getters are verified against the fields (size, colour scheme, bit model, content) that the unwinding families establish on the result objects"},
 		Note:        "[P] the 1-D image types: constructors store exactly kind/content/bars/scheme (black on white for the plain constructors), getters return them, At(x,y) is Foreground iff bit x. [P] the getters of the four 2-D image types (Bounds from the stored size, At(x,y) = Foreground iff the module bit, ColorModel/ColorScheme/Metadata/Content from the stored fields; PDF417 rows moduleHeight pixels high). [C] the unwinding families show that the result objects of EAN, PDF417, Aztec, DataMatrix and QR carry the caller's colour scheme, the prescribed size and the scheme-independent module pattern.",
 	},
 	{
